@@ -246,13 +246,34 @@ func (lsys *LinkSystem) Store(lnkCtx LinkContext, lp datamodel.LinkPrototype, n 
 	if err != nil {
 		return nil, err
 	}
-	tee := io.MultiWriter(writer, hasher)
+	// Remember the first error of the storage writer ourselves: not every encoder
+	// reports the errors of the writer it is given, and a block that was not
+	// written completely must never be committed.
+	latch := &errLatchWriter{w: writer}
+	tee := io.MultiWriter(latch, hasher)
 	err = encoder(n, tee)
+	if err == nil {
+		err = latch.err
+	}
 	if err != nil {
 		return nil, err
 	}
 	lnk := lp.BuildLink(hasher.Sum(nil))
 	return lnk, commitFn(lnk)
+}
+
+// errLatchWriter passes writes through and keeps the first error it sees.
+type errLatchWriter struct {
+	w   io.Writer
+	err error
+}
+
+func (l *errLatchWriter) Write(p []byte) (int, error) {
+	n, err := l.w.Write(p)
+	if err != nil && l.err == nil {
+		l.err = err
+	}
+	return n, err
 }
 
 func (lsys *LinkSystem) MustStore(lnkCtx LinkContext, lp datamodel.LinkPrototype, n datamodel.Node) datamodel.Link {
